@@ -5,7 +5,8 @@ import ast
 from typing import Dict, List, Optional, Set, Tuple
 
 from sa.cfg import CFG, guards
-from sa.model import full, AnalysisError, Function, Module, Repo, calls_in, const_str, dotted, norm, own_nodes, parent
+from sa.model import full, AnalysisError, Function, Module, Repo, calls_in, const_str, dotted, enclosing_stmt, norm, own_nodes, parent
+from sa.match import Locals, match, walk_own
 from sa.report import Report
 
 CONV = "core.cattrs_converter"
@@ -26,13 +27,16 @@ INVERSES = {
 def hook_registrations(mod: Module) -> Dict[str, Dict[str, Tuple[str, ast.AST]]]:
     """type name -> {'structure': (function name, node), 'unstructure': (...)} for module-level converter.register_*_hook(T, fn)."""
     out: Dict[str, Dict[str, Tuple[str, ast.AST]]] = {}
-    for st in mod.tree.body:
-        if isinstance(st, ast.Expr) and isinstance(st.value, ast.Call) and isinstance(st.value.func, ast.Attribute):
-            c = st.value
-            if c.func.attr in ("register_structure_hook", "register_unstructure_hook") and len(c.args) == 2 and isinstance(c.args[1], ast.Name):
-                t = norm(c.args[0])
+    for c in walk_own(mod.tree):
+        if isinstance(c, ast.Call) and isinstance(c.func, ast.Attribute) and c.func.attr in ("register_structure_hook", "register_unstructure_hook"):
+            if len(c.args) == 2 and isinstance(c.args[1], ast.Name) and isinstance(c.args[0], (ast.Name, ast.Attribute)) \
+                    and not isinstance(parent(enclosing_stmt(c)), (ast.For, ast.While)):
+                t = norm(c.args[0]).split(".")[-1]
                 kind = "structure" if c.func.attr == "register_structure_hook" else "unstructure"
                 out.setdefault(t, {})[kind] = (c.args[1].id, c)
+            else:
+                # registration through a loop / table: the recogniser cannot name type and function - fail closed, not a finding
+                raise AnalysisError(f"hook registration `{norm(c)[:70]}` is not of the form register_*_hook(<Type>, <function>) at module level")
     return out
 
 
@@ -45,13 +49,14 @@ def generator_leaf_types(repo: Repo) -> Dict[str, str]:
         raise AnalysisError("anchor vanished: OpenAPISchemaResolver._resolve_string")
     found = False
     for n in own_nodes(rs.node):
-        if isinstance(n, ast.Assign) and isinstance(n.targets[0], ast.Name) and n.targets[0].id == "format_mapping" and isinstance(n.value, ast.Dict):
+        if isinstance(n, ast.Assign) and isinstance(n.targets[0], ast.Name) and isinstance(n.value, ast.Dict) and any(
+                const_str(k) in ("date-time", "uuid", "date") for k in n.value.keys if k is not None):
             found = True
             for k, v in zip(n.value.keys, n.value.values):
                 if const_str(v) is not None:
                     out[const_str(v) or ""] = f"format: {const_str(k)}"
     if not found:
-        raise AnalysisError("anchor vanished: format_mapping in _resolve_string")
+        raise AnalysisError("anchor vanished: the format -> python type table in _resolve_string")
     # literal python_type="..." results of the primitive resolvers
     for fn in sr.functions.values():
         for c in calls_in(fn.node):
@@ -95,9 +100,16 @@ def rule_hook_pairs(repo: Repo, rep: Report, rule: str) -> None:
         if sf is None or uf is None:
             rep.error(f"{rule}: hook function for {t} not found")
             continue
-        dec = [dotted(c.func) for c in calls_in(sf.node) if dotted(c.func)]
-        enc_calls = [dotted(c.func) or (("." + c.func.attr) if isinstance(c.func, ast.Attribute) else "") for c in calls_in(uf.node)]
-        enc_attrs = ["." + c.func.attr for c in calls_in(uf.node) if isinstance(c.func, ast.Attribute)]
+        sl, ul = Locals(sf.node), Locals(uf.node)
+        s_calls = [sl.inline(c.func) for c in calls_in(sf.node)]
+        u_calls = [ul.inline(c.func) for c in calls_in(uf.node)]
+        dec = [dotted(c) for c in s_calls if dotted(c)]
+        enc_calls = [dotted(c) or (("." + c.attr) if isinstance(c, ast.Attribute) else "") for c in u_calls]
+        enc_attrs = ["." + c.attr for c in u_calls if isinstance(c, ast.Attribute)]
+        # f"{x}" / format(x) are str(x)
+        if any(isinstance(n, ast.JoinedStr) and len(n.values) == 1 and isinstance(n.values[0], ast.FormattedValue) and n.values[0].format_spec is None
+               for n in ast.walk(uf.node)) or "format" in enc_calls:
+            enc_calls.append("str")
         matched = False
         why = ""
         for dcall in dec:
@@ -125,10 +137,11 @@ def rule_rename_plumbing(repo: Repo, rep: Report, rule: str) -> None:
         if fn is None:
             raise AnalysisError(f"anchor vanished: {fname}")
         txt = full(fn.node)
-        reads = f"cls.Meta.{meta}" in txt
-        ov = [c for c in calls_in(fn.node) if dotted(c.func) == "override" and any(k.arg == "rename" for k in c.keywords)]
-        mk = [c for c in calls_in(fn.node) if dotted(c.func) == maker and any(k.arg is None for k in c.keywords)]
-        loops = [n for n in own_nodes(fn.node) if isinstance(n, ast.For) and "dataclasses.fields(cls)" in norm(n.iter)]
+        L = Locals(fn.node)
+        reads = f".Meta.{meta}" in txt or f"'{meta}'" in txt
+        ov = [c for c in calls_in(fn.node) if (dotted(L.inline(c.func)) or "").split(".")[-1] == "override" and any(k.arg == "rename" for k in c.keywords)]
+        mk = [c for c in calls_in(fn.node) if (dotted(L.inline(c.func)) or "").split(".")[-1] == maker and any(k.arg is None for k in c.keywords)]
+        loops = [n for n, _ in L.loops_over("dataclasses.fields(ANY_c)") + L.loops_over("fields(ANY_c)")]
         sub = f"{conv.relpath}:{fname}"
         if reads and ov and mk and loops:
             rep.ok(rule, sub, f"reads Meta.{meta}, builds override(rename=...) per field of dataclasses.fields(cls) and passes them to {maker}", fn.loc())
@@ -143,7 +156,8 @@ def rule_recursive_registration(repo: Repo, rep: Report, rule: str) -> None:
         fn = conv.functions.get(fname)
         if fn is None:
             raise AnalysisError(f"anchor vanished: {fname}")
-        loops = [n for n in own_nodes(fn.node) if isinstance(n, ast.For) and "dataclasses.fields(cls)" in norm(n.iter)]
+        L = Locals(fn.node)
+        loops = [n for n, _ in L.loops_over("dataclasses.fields(ANY_c)") + L.loops_over("fields(ANY_c)") if isinstance(n, ast.For)]
         sub = f"{conv.relpath}:{fname} descends into every field type"
         if len(loops) != 1:
             rep.violation(rule, sub, f"{fn.fq}|field-loop|{len(loops)}", "no single loop over dataclasses.fields(cls)", fn.loc())
@@ -167,15 +181,33 @@ def rule_recursive_registration(repo: Repo, rep: Report, rule: str) -> None:
         raise AnalysisError("anchor vanished: _register_hooks_for_nested_types")
     cfg = CFG(nt.node)
     dom = cfg.dominators()
-    reg = [n for n in cfg.nodes if n.kind == "stmt" and n.ast is not None and any(dotted(c.func) == "registrar" for c in calls_in(n.ast))]
+    L = Locals(nt.node)
+    # the registrar is the parameter that is *called*; the inspected type is the parameter handed to is_dataclass()
+    called_params = {c.func.id for c in calls_in(nt.node) if isinstance(c.func, ast.Name) and L.is_param(c.func.id)}
+    if not called_params:
+        raise AnalysisError("anchor vanished: _register_hooks_for_nested_types calls none of its parameters (registrar)")
+    reg = [n for n in cfg.nodes if n.kind == "stmt" and n.ast is not None and any(isinstance(c.func, ast.Name) and c.func.id in called_params for c in calls_in(n.ast))]
     sub = f"{conv.relpath}:_register_hooks_for_nested_types"
+
+    def allowed_conjunct(t: ast.AST) -> bool:
+        t = L.inline(t)
+        return (match("isinstance(VAR_t, type)", t) is not None or match("dataclasses.is_dataclass(VAR_t)", t) is not None
+                or match("is_dataclass(VAR_t)", t) is not None or match("inspect.isclass(VAR_t)", t) is not None)
+
     okr = False
     for r in reg:
         gs = [(g, p) for g, p in guards(cfg, r.id, dom) if g.kind == "test"]
-        # only guard allowed: `isinstance(type_hint, type) and dataclasses.is_dataclass(type_hint)`
-        if len(gs) == 1 and gs[0][1] is True and "is_dataclass(type_hint)" in norm(gs[0][0].ast) and norm(gs[0][0].ast).count(" and ") <= 1:
+        conj: List[ast.AST] = []
+        good = bool(gs)
+        for g, pol in gs:
+            if pol is not True:
+                good = False
+                break
+            conj += list(g.ast.values) if isinstance(g.ast, ast.BoolOp) and isinstance(g.ast.op, ast.And) else [g.ast]
+        # only allowed guards: "is a class" and "is a dataclass" of the inspected type (in one test or nested)
+        if good and all(allowed_conjunct(t) for t in conj) and any("is_dataclass" in norm(L.inline(t)) for t in conj):
             okr = True
-    rec_args = [n for n in own_nodes(nt.node) if isinstance(n, ast.For) and "get_args(type_hint)" in norm(n.iter)]
+    rec_args = [n for n, _ in L.loops_over("get_args(ANY_t)") + L.loops_over("typing.get_args(ANY_t)")]
     if okr and rec_args:
         rep.ok(rule, sub, "registers every dataclass it meets (no other condition) and descends into all type arguments", nt.loc())
     else:
